@@ -114,25 +114,62 @@ func (c rhCond) shape() string {
 	return tail(c.x) + " >= " + tail(c.y)
 }
 
+// smallestSyncerUnit returns the smallest function unit of package syncer (declared
+// function or literal, its callees and closures expanded into it) whose view satisfies pred.
+func smallestSyncerUnit(c *Ctx, pred func(v *ir.Func) bool) *ir.Func {
+	var best *ir.Func
+	size := func(f *ir.Func) int { return len(f.Graph().Nodes) }
+	for _, f := range c.P.Funcs {
+		if f.Pkg.PkgPath != ir.PkgPath("syncer") {
+			continue
+		}
+		v := c.P.Expand(f, ir.ExpandOpt{Key: "unit"})
+		if v.Base == nil || !pred(v) {
+			continue
+		}
+		if best == nil || size(v) < size(best) {
+			best = v
+		}
+	}
+	return best
+}
+
+// syncWorker: the unit that requests a checkpoint, validates blocks and tests the require height.
+func syncWorker(c *Ctx) *ir.Func {
+	sendCheckpoint := c.P.Method("syncer", "Peer", "SendCheckpoint")
+	validateBlock := c.P.FuncObj("consensus", "ValidateBlock")
+	return smallestSyncerUnit(c, func(v *ir.Func) bool {
+		return len(v.CallsTo(false, sendCheckpoint)) > 0 && len(v.CallsTo(false, validateBlock)) > 0 && len(requireHeightConds(v)) > 0
+	})
+}
+
 func c11r1(c *Ctx) {
 	addValidated := c.P.Method("syncer", "ChainManager", "AddValidatedV2Blocks")
 	sendCheckpoint := c.P.Method("syncer", "Peer", "SendCheckpoint")
 	validateBlock := c.P.FuncObj("consensus", "ValidateBlock")
 	applyBlock := c.P.FuncObj("consensus", "ApplyBlock")
-	var finisher, worker *ir.Func
+	// the finisher and the worker are the smallest function units (a declared function or a literal, with the
+	// helpers it calls expanded into it) that contain, respectively, the trusted call together with a require-height
+	// test, and the checkpoint request, the block validation and a require-height test
+	finisher := smallestSyncerUnit(c, func(v *ir.Func) bool {
+		return len(v.CallsTo(false, addValidated)) > 0 && len(requireHeightConds(v)) > 0
+	})
+	worker := syncWorker(c)
 	for _, f := range c.P.Funcs {
-		if f.Pkg.PkgPath != ir.PkgPath("syncer") {
-			continue
-		}
-		if len(f.CallsTo(false, addValidated)) > 0 {
-			if finisher != nil {
-				ob := c.Ob(f, "single-trusted-call-site", f.Body.Pos())
-				ob.Bad(nil, "AddValidatedV2Blocks is called from more than one function (%s and %s)", finisher.Name(), f.Name())
+		if f.Pkg.PkgPath == ir.PkgPath("syncer") && finisher != nil && len(f.CallsTo(false, addValidated)) > 0 {
+			// every raw call site must lie inside the finisher unit
+			for _, call := range f.CallsTo(false, addValidated) {
+				covered := false
+				for _, vc := range finisher.CallsTo(false, addValidated) {
+					if c.P.OrigNode(vc.Expr) == ast.Node(call.Expr) {
+						covered = true
+					}
+				}
+				if !covered {
+					ob := c.Ob(f, "single-trusted-call-site", f.Body.Pos())
+					ob.Bad(nil, "AddValidatedV2Blocks is also called at %s, outside the function that tests the require height (%s)", c.P.Pos(call.Pos()), finisher.Name())
+				}
 			}
-			finisher = f
-		}
-		if len(f.CallsTo(false, sendCheckpoint)) > 0 && len(f.CallsTo(false, validateBlock)) > 0 {
-			worker = f
 		}
 	}
 	if finisher == nil || worker == nil {
@@ -181,12 +218,15 @@ func c11r1(c *Ctx) {
 				continue
 			}
 			for _, w := range worker.WritesIn(node.AST, false) {
-				sel, ok := ast.Unparen(w.LHS).(*ast.SelectorExpr)
-				if !ok || sel.Sel.Name != "states" || w.RHS == nil {
+				// a list of consensus states that grows by append (the response's states, however it is held)
+				if sl, isSlice := worker.TypeOf(w.LHS).(*types.Slice); !isSlice || !ir.IsNamed(sl.Elem(), ir.CoreMod+"/consensus", "State") || w.RHS == nil {
 					continue
 				}
 				ac, ok := ast.Unparen(w.RHS).(*ast.CallExpr)
-				if !ok || len(ac.Args) != 2 {
+				if !ok || len(ac.Args) != 2 || !sameLvalue(worker, ac.Args[0], w.LHS) {
+					continue
+				}
+				if id, isID := ac.Fun.(*ast.Ident); !isID || id.Name != "append" {
 					continue
 				}
 				n++
@@ -269,7 +309,7 @@ func c11r1(c *Ctx) {
 		good := true
 		for _, vc := range worker.CallsTo(false, validateBlock) {
 			chk := worker.CheckOf(vc.Expr)
-			for n := range worker.ReachableFromEdges(chk.Fail, nil) {
+			for n := range worker.ReachableAfterFailure(chk.Fail) {
 				rs, ok := n.AST.(*ast.ReturnStmt)
 				if !ok {
 					continue
@@ -433,6 +473,17 @@ func c11r2(c *Ctx) {
 								}
 								return st, false
 							}
+							if rs, isRet := m.AST.(*ast.ReturnStmt); isRet && len(rs.Results) > 0 {
+								// early-exit style: a return that hands back a definite error is not a success exit;
+								// one that hands back something other than the tracked variable is judged by what it returns
+								last := rs.Results[len(rs.Results)-1]
+								switch k := f.ClassifyReturn(m); {
+								case k == ir.RetError:
+									return st, false
+								case f.ObjOf(last) != errObj || errObj == nil:
+									st &^= 1
+								}
+							}
 							if m.AST != nil {
 								for _, w := range f.WritesIn(m.AST, false) {
 									if f.ObjOf(w.LHS) != errObj {
@@ -471,7 +522,7 @@ func c11r2(c *Ctx) {
 	}
 	// SendHeaders
 	{
-		f := c.P.Fn("syncer", "Peer", "SendHeaders")
+		f := syncerView(c, c.P.Fn("syncer", "Peer", "SendHeaders"))
 		g := f.Graph()
 		c.VisitGraph(f)
 		ob := c.Ob(f, "every-header-validated", f.Body.Pos())
@@ -543,24 +594,9 @@ func c11r2(c *Ctx) {
 	}
 	// below the require height: ids compared with validated headers before the blocks are kept
 	{
-		sendCheckpoint := c.P.Method("syncer", "Peer", "SendCheckpoint")
-		var worker *ir.Func
-		vb := c.P.FuncObj("consensus", "ValidateBlock")
-		for _, f := range c.P.Funcs {
-			if f.Pkg.PkgPath == ir.PkgPath("syncer") && len(f.CallsTo(false, sendCheckpoint)) > 0 && len(f.CallsTo(false, vb)) > 0 {
-				worker = f
-			}
-		}
+		worker := syncWorker(c)
 		if worker == nil {
 			ir.Fail("sync worker not found")
-		}
-		// with helpers, local closures and library searches (slices.EqualFunc …) expanded
-		if worker.Lit != nil {
-			if wv := syncerView(c, worker.Top()).LitFor(worker); wv != nil {
-				worker = wv
-			}
-		} else {
-			worker = syncerView(c, worker)
 		}
 		g := worker.Graph()
 		ob := c.Ob(worker, "blocks-match-validated-headers", worker.Body.Pos())
@@ -574,8 +610,11 @@ func c11r2(c *Ctx) {
 					continue
 				}
 				for _, w := range worker.WritesIn(node.AST, false) {
-					sel, ok := ast.Unparen(w.LHS).(*ast.SelectorExpr)
-					if !ok || sel.Sel.Name != "blocks" {
+					// the fetched blocks are kept: a block list is copied into the response (a field or a result variable)
+					if sl, isSlice := worker.TypeOf(w.LHS).(*types.Slice); !isSlice || !ir.IsNamed(sl.Elem(), ir.CoreMod+"/types", "Block") || w.RHS == nil || worker.IsNil(w.RHS) {
+						continue
+					}
+					if _, isCall := ast.Unparen(w.RHS).(*ast.CallExpr); isCall {
 						continue
 					}
 					if _, fromElse := worker.ReachableFromEdges([]*cfgx.Edge{elseEdge}, nil)[node]; !fromElse || !worker.OnlyVia(node, []*cfgx.Edge{elseEdge}) {
@@ -655,8 +694,14 @@ func banFn(c *Ctx) *ir.Func {
 	return nil
 }
 
+// dispatchView: the gateway dispatcher with the helpers it calls expanded (the ban function stays a call).
+func dispatchView(c *Ctx) *ir.Func {
+	ban := banFn(c)
+	return c.P.Views("syncer", ir.ExpandOpt{Key: "dispatch", Stop: func(fn *types.Func) bool { return fn == ban.Obj }}).Of(dispatchFn(c))
+}
+
 func c11r3(c *Ctx) {
-	f := dispatchFn(c)
+	f := dispatchView(c)
 	g := f.Graph()
 	c.VisitGraph(f)
 	addBlocks := c.P.Method("syncer", "ChainManager", "AddBlocks")
@@ -676,7 +721,7 @@ func c11r3(c *Ctx) {
 				if be.Op == token.LSS && mentionsText(be.X, "CmpWork") && mentionsText(be.X, "PoWTarget") {
 					workOK = append(workOK, n.Succs[1])
 				}
-				if be.Op == token.NEQ && mentionsText(be, "ParentID") && mentionsText(be, "Tip()") {
+				if be.Op == token.NEQ && mentionsTextDeep(f, be, "ParentID") && mentionsText(be, "Tip()") {
 					attachOK = append(attachOK, n.Succs[1])
 				}
 			}
@@ -768,7 +813,7 @@ func c11r4(c *Ctx) {
 }
 
 func c11r5(c *Ctx) {
-	f := dispatchFn(c)
+	f := dispatchView(c)
 	ban := banFn(c)
 	g := f.Graph()
 	c.VisitGraph(f)
